@@ -165,6 +165,10 @@ func MuxScenarios(thorough bool) []MuxScenario {
 			Alpha: []MOp{opAddD, {K: "add", PID: 0x104, ST: stMeta, Desc: "sid"}, opAddC, opAddB, {K: "rm", PID: 0x103}, {K: "rm", PID: 0x104}, {K: "rm", PID: 0x102}, opRmB, opTables, opDataA1}, Depth: 4, Dedup: true},
 		// automatic PID assignment after explicit PIDs at the ends of the range, around streams that are live
 		MuxScenario{Name: "auto-pid-extremes-p40", Period: 40, Setup: setupA, Alpha: []MOp{opAddHi, opAddLo, opAddAuto, opDataA1, opDataAuto, {K: "rm", PID: 0x1ffe}, opTables}, Depth: 5, Dedup: true},
+		// the automatic assignment cursor is walked up to a stream that sits right below the PMT PID (0x0fff in
+		// use, 0x1000 reserved), and to the end of the range (0x1ffe in use, 0x1fff the null PID)
+		MuxScenario{Name: "auto-pid-next-to-reserved-p40", Period: 40, Setup: []MOp{opAddA, opPcrA, {K: "add", PID: 0x0fff, ST: stAAC}, opAddHi},
+			Alpha: []MOp{{K: "churn", N: 3837}, {K: "churn", N: 4090}, opAddAuto, opDataA1, opDataAuto, opTables}, Depth: 4, Dedup: true},
 		MuxScenario{Name: "packet-size-edges-p2", Period: 2, Setup: setupA, Alpha: muxPktEdgeAlpha, Depth: 3, Dedup: true},
 		MuxScenario{Name: "fix-add-remove", Period: 40, Setup: setupA, Alpha: []MOp{opAddB, opRmB, opTables}, Depth: -1, Dedup: true},
 		MuxScenario{Name: "fix-readd-p1", Period: 1, Setup: setupA, Alpha: []MOp{opRmA, opAddA, opDataA1}, Depth: fixDepth, Dedup: true},
